@@ -1,5 +1,5 @@
 (* C10 — escape() output always parses back to the original identifier.  Statements only. *)
-From SV Require Import Base Regex IR Lit AttrPat Parser EscapeFacts.
+From SV Require Import Base Regex IR Lit AttrPat Parser EscapeFacts UnescFacts.
 
 (* FULL STATEMENT: forall s, s <> [] -> roundtrip s = true, i.e. the model parser compiles
      '#' + escape(s)          to the single compound  *#s'
@@ -12,6 +12,13 @@ From SV Require Import Base Regex IR Lit AttrPat Parser EscapeFacts.
 Theorem C10_roundtrip_partial : forall c s, In c sample_points -> In s (shapes c) -> roundtrip s = true.
 Proof. exact roundtrip_sampled_sound. Qed.
 Print Assumptions C10_roundtrip_partial.
+
+(* UNBOUNDED: for EVERY string s, unescaping escape(s) (with the REGENERATED pattern RE_CSS_ESC) gives s back, NUL
+   replaced by U+FFFD - the identifier-level half of the round trip with no bound on length or code points.  What
+   stays sampled above is the tokenizer half (that the parser takes escape(s) as ONE identifier token). *)
+Theorem C10_unescape_escape : forall s, css_unescape (escape s) false = map nul_fix s.
+Proof. exact unescape_escape. Qed.
+Print Assumptions C10_unescape_escape.
 
 (* escaping never raises (escape is a total function) and a non-empty identifier never escapes to nothing *)
 Theorem C10_escape_nonempty : forall s, s <> [] -> escape s <> [].
